@@ -31,7 +31,7 @@ RULE = (
     "operation-sequence hash / trace hash."
 )
 ASSUMPTIONS = ["SQLite backend", "the one-second SQL clock is handled by warps only (rows are made due / locks lapsed by rewriting their timestamps)"]
-MIN_OBS = {"model_ops": {"quick": 15000, "thorough": 300000}, "commits_checked_for_conservation": {"quick": 15000, "thorough": 300000}, "poller_schedules_with_switch": {"quick": 500, "thorough": 10000}, "dlq_operator_schedules_with_switch": {"quick": 100, "thorough": 1000}}
+MIN_OBS = {"model_ops": {"quick": 15000, "thorough": 300000}, "commits_checked_for_conservation": {"quick": 15000, "thorough": 300000}, "poller_schedules_with_switch": {"quick": 500, "thorough": 10000}, "dlq_operator_schedules_with_switch": {"quick": 100, "thorough": 300}}
 TIMEOUT = {"quick": 800, "thorough": 3400}
 
 
